@@ -28,6 +28,7 @@ Apply ==
       [] Ev.e = "Failed"   -> OnFailedLine(C, m, Ev.t, Ev.syncfail)
       [] Ev.e = "Kill"     -> OnKill(C, m, Ev.t, Ev.sig, Ev.foreign)
       [] Ev.e = "Abort"    -> OnAbort(C, m, SetOf(Ev.live))
+      [] Ev.e = "Row"      -> OnRow(C, m, Ev.t, Ev.ts)
       [] Ev.e = "Return"   -> OnReturn(C, m, Ev.exit, Ev.hang, Ev.stderr, SetOf(Ev.failed), SetOf(Ev.skipped),
                                         SetOf(Ev.newrows), Ev.aborted)
       [] OTHER -> m
